@@ -489,6 +489,59 @@ fn storm_test(c: &SimCase, obs: &mut Obs) -> CheckResult {
     Ok(())
 }
 
+/// The same invariants under storms of *transient* send failures (IPv4: host / network
+/// unreachable, EINVAL for ICMP, address-not-available at bind): every failed probe still uses up
+/// a sequence number and a TTL, so a round stays within 254 of them however long the storm lasts.
+/// Rounds are made long enough (700 read timeouts) for a storm to fit into one round.
+fn fail_storm_strat() -> BoxedStrategy<SimCase> {
+    let base = sim_case(&GenOpts {
+        supported_only: true,
+        sending_only: true,
+        max_hops: 8,
+        long_path_pct: 0,
+        rounds: (2, 5),
+        exts: false,
+        ..GenOpts::default()
+    });
+    (base, proptest::collection::vec((0u16..=40, prop_oneof![3 => 0u16..=30, 2 => 200u16..=520, 2 => 500u16..=650], 0u8..3), 1..=3))
+        .prop_map(|(mut c, storms)| {
+            c.cfg.v6 = false;
+            if c.cfg.strategy != Strat::Classic && !c.cfg.privileged {
+                c.cfg.strategy = Strat::Classic;
+            }
+            // 700 polls per round whatever the time unit of the case
+            c.cfg.read_timeout_ns = (c.cfg.max_round_ns / 700).max(1000);
+            c.cfg.max_round_ns = c.cfg.read_timeout_ns * 700;
+            c.cfg.min_round_ns = c.cfg.min_round_ns.min(c.cfg.max_round_ns);
+            c.cfg.tcp_connect_timeout_ns = c.cfg.tcp_connect_timeout_ns.min(c.cfg.max_round_ns);
+            c.cfg.max_ttl = c.cfg.max_ttl.max(c.cfg.first_ttl);
+            let cfg = c.cfg.clone();
+            c.world.faults = storms
+                .into_iter()
+                .map(|(nth, repeat, pick)| {
+                    let (stage, errno) = match (cfg.protocol, cfg.privileged) {
+                        (Proto::Icmp, _) => (Stage::SendTo, [libc::EHOSTUNREACH, libc::ENETUNREACH, libc::EINVAL][usize::from(pick)]),
+                        (Proto::Udp, true) => (Stage::SendTo, [libc::EHOSTUNREACH, libc::ENETUNREACH, libc::EHOSTUNREACH][usize::from(pick)]),
+                        (Proto::Udp, false) => (Stage::Bind, libc::EADDRNOTAVAIL),
+                        (Proto::Tcp, _) => [(Stage::Bind, libc::EADDRNOTAVAIL), (Stage::Connect, libc::ENETUNREACH), (Stage::Bind, libc::EADDRNOTAVAIL)][usize::from(pick)],
+                    };
+                    FaultSpec { stage, nth, errno, repeat }
+                })
+                .collect();
+            c
+        })
+        .boxed()
+}
+
+fn fail_storm_test(c: &SimCase, obs: &mut Obs) -> CheckResult {
+    storm_test(c, obs)?;
+    let log_failed = c.world.faults.iter().map(|f| usize::from(f.repeat) + 1).max().unwrap_or(0);
+    if log_failed > 254 {
+        obs.class("storm-longer-than-a-round");
+    }
+    Ok(())
+}
+
 // ---------------------------------------------------------------------------------------------
 // "the Dublin/IPv6 payload length derived from the sequence always fits the packet buffer": the
 // clause is about the dispatch code, so it is run - every offset a trace can reach is put on the
@@ -547,7 +600,7 @@ pub fn check() -> PropertyCheck {
     PropertyCheck {
         id: "C07",
         level: "exploration",
-        rule: "sequence-walk: for 9 boundary initial sequences x 4 regimes (<=254 per round, TCP <=512 per round, Dublin/IPv6, TCP+Dublin+IPv6) the real TracerState is brought to every round start within 600 of the initial sequence and within 600 of the wrap threshold and, from a clone, every round size 0..=max (thorough; every 37th plus boundaries in quick) followed by a round of 1 / 254 / max is issued through next_probe / reissue_probe / advance_round and checked: consecutive, < 65535, <= 512, next round starts at the previous end or the initial sequence, Dublin payload fits, and a response naming any sequence of the preceding round changes nothing; evaluations count (round start, size, next size) transitions. history: random round-size sequences up to 400 rounds. tcp-storm: simulated TCP runs with address-in-use storms of up to 530 consecutive bind/connect failures. Non-trivial = a wrap occurred or a round consumed > 254 sequences",
+        rule: "sequence-walk: for 9 boundary initial sequences x 4 regimes (<=254 per round, TCP <=512 per round, Dublin/IPv6, TCP+Dublin+IPv6) the real TracerState is brought to every round start within 600 of the initial sequence and within 600 of the wrap threshold and, from a clone, every round size 0..=max (thorough; every 37th plus boundaries in quick) followed by a round of 1 / 254 / max is issued through next_probe / reissue_probe / advance_round and checked: consecutive, < 65535, <= 512, next round starts at the previous end or the initial sequence, Dublin payload fits, and a response naming any sequence of the preceding round changes nothing; evaluations count (round start, size, next size) transitions. history: random round-size sequences up to 400 rounds. tcp-storm: simulated TCP runs with address-in-use storms of up to 530 consecutive bind/connect failures. send-failure-storm: IPv4 runs of every protocol with storms of up to 650 consecutive transient send failures inside rounds long enough to hold them. Non-trivial = a wrap occurred or a round consumed > 254 sequences",
         assumptions: vec![
             "the gate `in_round(sequence)` of Strategy::recv_response is mirrored by the walk before it calls complete_probe",
             "round starts farther than 600 from both the initial sequence and the wrap threshold behave like their neighbours (no wrap is possible from there) and are reached only by the history sub-check",
@@ -573,6 +626,14 @@ pub fn check() -> PropertyCheck {
                 thorough: 1_500_000,
                 strat: storm_strat,
                 test: storm_test,
+                max_shrink: 2000,
+            }),
+            Box::new(Pbt {
+                name: "send-failure-storm",
+                quick: 20_000,
+                thorough: 600_000,
+                strat: fail_storm_strat,
+                test: fail_storm_test,
                 max_shrink: 2000,
             }),
             Box::new(Enumerated {
